@@ -94,7 +94,10 @@ where
             match wrapped_lines.get(line_no + column_no * lines_per_column) {
                 Some(column_line) => {
                     line.push_str(column_line);
-                    line.push_str(&" ".repeat(column_width - display_width(column_line)));
+                    // A line wider than its column protrudes into the
+                    // margin instead of underflowing the padding.
+                    let padding = column_width.saturating_sub(display_width(column_line));
+                    line.push_str(&" ".repeat(padding));
                 }
                 None => {
                     line.push_str(&" ".repeat(column_width));
